@@ -116,6 +116,7 @@ pub const SITES: &[Site] = &[
     site!("array_member", "struct PS { float pa[@]; };\n", Look::MemberArray("PS", "pa"), ARR, emit "pa[", ']'),
     site!("array_param", "void t(float pa[@]) {}\n", Look::ParamArray("t"), ARR, emit "pa[", ']'),
     site!("array_typedef", "typedef float PT[@];\nPT pa;\n", Look::GlobalArray("pa"), ARR, emit "pa[", ']'),
+    site!("array_multi", "void t() { float pb[2], pa[@]; }\n", Look::LocalArray("pa"), ARR),
     site!("array_cbuffer", "cbuffer PCB { float4 pa[@]; }\n", Look::CbufferArray("pa"), ARR),
     site!("array_shared", "groupshared float pa[@];\n", Look::GlobalArray("pa"), ARR),
     site!("array_outer", "float pa[@][3];\n", Look::GlobalArray("pa"),
@@ -145,6 +146,7 @@ pub const SITES: &[Site] = &[
     site!("tbody_array", "template<uint N> void tf() { float pa[N]; }\nvoid t() { tf<@>(); }\n", Look::LocalArray("pa"), ARR, via T::UInt, "@"),
     site!("tbody_arith", "template<uint N> void tf() { float pa[(N - 4) / 1073741824 + 1]; }\nvoid t() { tf<@>(); }\n", Look::LocalArray("pa"), ARR, via T::UInt, "(@ - 4) / 1073741824 + 1"),
     site!("tstruct_array", "template<uint N> struct TS { float pa[N]; };\nvoid t() { TS<@> ts; }\n", Look::MemberArray("TS", "pa"), ARR, via T::UInt, "@"),
+    site!("template_mixed", "template<typename TT, uint N> TT tf() { return (TT)N; }\nvoid t() { tf<float, @>(); }\n", Look::FnTemplateArg, Rule::SameInt, via T::UInt, "@"),
     site!("vector_dim", "vector<float, @> pv;\n", Look::Dims("pv"), Rule::Dim { before: "", after: "" }),
     site!("matrix_rows", "matrix<float, @, 2> pv;\n", Look::Dims("pv"), Rule::Dim { before: "", after: ",2" }),
     site!("matrix_cols", "matrix<float, 3, @> pv;\n", Look::Dims("pv"), Rule::Dim { before: "3,", after: "" }),
@@ -164,6 +166,10 @@ pub const SITES: &[Site] = &[
     site!("localstatic", "void t() { static const uint pc = @; }\n", Look::LocalConst("pc"), Rule::Stored(Some(T::UInt))),
     site!("forconst", "void t() { for (const int pc = @; false; ) {} }\n", Look::LocalConst("pc"), Rule::Stored(Some(T::Int))),
     site!("blockconst", "void t() { if (true) { { const bool pc = @; } } }\n", Look::LocalConst("pc"), Rule::Stored(Some(T::Bool))),
+    site!("elseconst", "void t() { if (false) {} else { const int pc = @; } }\n", Look::LocalConst("pc"), Rule::Stored(Some(T::Int))),
+    site!("whileconst", "void t() { while (false) { const uint pc = @; continue; } do { discard; } while (false); }\n", Look::LocalConst("pc"), Rule::Stored(Some(T::UInt))),
+    site!("consttypedef", "typedef const int PCI;\nstatic PCI pc = @;\n", Look::GlobalConst("pc"), Rule::Stored(Some(T::Int))),
+    site!("constmulti", "static const int pc0 = 1, pc = @;\n", Look::GlobalConst("pc"), Rule::Stored(Some(T::Int))),
     site!("nonconst", "static int pc = @;\n", Look::GlobalConst("pc"), Rule::NeverConst),
     site!("localnonconst", "void t() { int pc = @; }\n", Look::LocalConst("pc"), Rule::NeverConst),
     site!("nonconst_use", "static int pn = @;\nfloat pa[pn];\n", Look::Accept, Rule::MustReject),
@@ -180,6 +186,7 @@ pub const SITES: &[Site] = &[
     site!("numthreads_y", "[numthreads(1, @, 1)] void main() {}\nPipeline PP { ComputeShader = main; }\n", Look::Threads(1), size("threads:", 0, U32MAX, false)),
     site!("numthreads_z", "[numthreads(1, 2, @)] void main() {}\nPipeline PP { ComputeShader = main; }\n", Look::Threads(2), size("threads:", 0, U32MAX, false)),
     site!("unroll", "void t() { [unroll(@)] for (int i = 0; i < 2; ++i) {} }\n", Look::Unroll, size("count:", 0, U64MAX, false)),
+    site!("unroll_while", "void t() { [unroll(@)] while (false) {} }\n", Look::Unroll, size("count:", 0, U64MAX, false)),
     site!("bindgroup", "[[rssl::bind_group(@)]] Texture2D<float4> ptx;\n", Look::BindGroup("ptx"), size("group:", 0, U32MAX, false)),
     site!("vkbinding", "[[vk::binding(@)]] Texture2D<float4> ptx;\n", Look::BindIndex("ptx"), size("index:", 0, U32MAX, false)),
     site!("vkbinding_set", "[[vk::binding(3, @)]] Texture2D<float4> ptx;\n", Look::BindGroup("ptx"), size("group:", 0, U32MAX, false)),
@@ -335,8 +342,10 @@ pub fn look(m: &ir::Module, l: &Look) -> String {
             let mut r = shape("no instantiation");
             for id in m.function_registry.iter() {
                 if let Some(data) = m.function_registry.get_template_instantiation_data(id) {
-                    if let Some(ir::TypeOrConstant::Constant(c)) = data.template_args.first() {
-                        r = format!("val:{}", show_k(&k_of_const(&c.clone().unrestrict())));
+                    for a in &data.template_args {
+                        if let ir::TypeOrConstant::Constant(c) = a {
+                            r = format!("val:{}", show_k(&k_of_const(&c.clone().unrestrict())));
+                        }
                     }
                 }
             }
